@@ -286,7 +286,8 @@ impl Run {
                 }
                 let t = ju(&call, "t") as u64;
                 // block time is u64 nanoseconds: instants beyond year ~2554 cannot be reached
-                match t.checked_mul(1_000_000_000) {
+                // domain: block times up to the year 2200 (a saturated deadline is never reached)
+                match t.checked_mul(1_000_000_000).filter(|_| t <= 7_258_118_400) {
                     Some(ns) => {
                         if t >= self.w.now_s() {
                             self.w.now_ns = ns;
